@@ -23,17 +23,50 @@ let dump_chunk (c : Model.chunk) : Stdlib.String.t =
     (tok_of_list hex_of_n reps) (tok_of_list hex_of_n defs) (tok_of_list tok_of_bytes vals)
     (String.concat "," types) (String.concat "," encs) (String.concat "," nv)
 
+(* c02.verify <file> [<sections>]
+   sections: '_' or entry,entry..., entry = CODEC:xCOMPRESSED:xCONTENT | CODEC:xCOMPRESSED:!
+   The graph of the external decompressor [ext] of SpecDecoder.decompress on the compressed
+   sections of this file: what the reference implementation of the codec (harness/c02/refcodec)
+   answers for the section ('!' = it rejects the bytes: not a complete well-formed stream of the
+   codec).  A section that is not listed is not decodable either.  The decoder consults [ext] for
+   the codecs other than UNCOMPRESSED and SNAPPY only. *)
+let ext_note = ref ""
+
+let ext_of_tok (tok : Stdlib.String.t) : Model.z -> Model.n list -> Model.n list option =
+  let tbl : (Stdlib.String.t, Model.n list option) Hashtbl.t = Hashtbl.create 16 in
+  List.iter (fun e ->
+    match String.split_on_char ':' e with
+    | [codec; comp; content] ->
+        Hashtbl.replace tbl (codec ^ ":" ^ comp) (if content = "!" then None else Some (bytes_of_tok content))
+    | _ -> failwith "section token") (split_on ',' tok);
+  fun codec b ->
+    let key = hex_of_z codec ^ ":" ^ tok_of_bytes b in
+    match Hashtbl.find_opt tbl key with
+    | Some (Some d) -> Some d
+    | Some None ->
+        if !ext_note = "" then ext_note := Printf.sprintf "the reference decoder of codec %s rejects a section of %d bytes (%s)"
+          (hex_of_z codec) (List.length b) (let t = tok_of_bytes b in if String.length t > 40 then String.sub t 0 40 ^ ".." else t);
+        None
+    | None ->
+        if !ext_note = "" then ext_note := Printf.sprintf "a section of %d bytes with codec %s is not among the sections found by the page walk"
+          (List.length b) (hex_of_z codec);
+        None
+
+let verify_answer ext b =
+  ext_note := "";
+  match Model.verify ext (bytes_of_tok b) with
+  | None -> if !ext_note = "" then "UNPARSEABLE" else "UNPARSEABLE:" ^ String.concat "_" (String.split_on_char ' ' !ext_note)
+  | Some (f, codes) ->
+      let cs = if codes = [] then "_" else String.concat "," (List.map string_of_coq codes) in
+      let groups = List.map (fun g ->
+        let nrows = int_of_nat (Model.nat_of_field (z_of_int 3) g.Model.g_meta) in
+        string_of_int nrows ^ "#" ^ String.concat ";" (List.map dump_chunk g.Model.g_chunks)) f.Model.f_groups in
+      cs ^ " " ^ (if groups = [] then "_" else String.concat "|" groups)
+
 let () =
   register "c02.verify" (function
-    | [b] ->
-        (match Model.verify (bytes_of_tok b) with
-         | None -> "UNPARSEABLE"
-         | Some (f, codes) ->
-             let cs = if codes = [] then "_" else String.concat "," (List.map string_of_coq codes) in
-             let groups = List.map (fun g ->
-               let nrows = int_of_nat (Model.nat_of_field (z_of_int 3) g.Model.g_meta) in
-               string_of_int nrows ^ "#" ^ String.concat ";" (List.map dump_chunk g.Model.g_chunks)) f.Model.f_groups in
-             cs ^ " " ^ (if groups = [] then "_" else String.concat "|" groups))
+    | [b] -> verify_answer Model.no_ext b
+    | [b; sections] -> verify_answer (ext_of_tok sections) b
     | _ -> failwith "args");
   register "c02.thrift_roundtrip" (function
     | [b] ->
